@@ -344,6 +344,20 @@ func c18Main(args map[string]string) {
 			}
 		}
 	}
+	// skipping is descriptor-free: arbitrary well-formed values too (struct-, list-, set- and map-keyed maps, every element kind)
+	for i := 0; i < atoi(args["n"]); i++ {
+		idx++
+		c.idx = idx - 1
+		if idx-1 < startAt {
+			continue
+		}
+		r := rand.New(rand.NewSource(seed*2000003 + int64(i)))
+		for k := 0; k < 6; k++ {
+			t := allKinds[r.Intn(len(allKinds))]
+			v := randVal(r, t, 0, &genCfg{maxDepth: 1 + r.Intn(3), maxElems: 1 + r.Intn(4), maxStr: 20, contKeys: k%2 == 0}).Enc(nil)
+			c.skipCase(int(t), v, map[string]interface{}{"skip": map[string]interface{}{"t": int(t), "b": B(v)}})
+		}
+	}
 	// scalar text encoders: random values on top of the TLC-made boundary values
 	ps := syscall.Getpagesize()
 	for i := 0; i < atoi(args["nenc"]); i++ {
